@@ -12,16 +12,68 @@ import cxx2lean  # noqa: E402
 import vlib  # noqa: E402
 
 
+def hx(b):
+    return b.hex() if b else '-'
+
+
+def cursor_inputs():
+    """boundary inputs of the character-cursor functions: `kind hexbytes` per line (the buffer is the bytes + a NUL)"""
+    out = []
+    signs = [b'', b'-']
+    ints = [b'', b'0', b'1', b'9', b'17', b'180', b'214', b'215', b'2147483647', b'9999999999', b'12345678901', b'00000000000']
+    fracs = [b'', b'.', b'.5', b'.1234567', b'.12345678', b'.123456749', b'.123456750', b'.99999995', b'.7483647', b'.7483648',
+             b'.' + b'9' * 19, b'.' + b'9' * 20, b'.' + b'1' * 27, b'.' + b'0' * 28, b'.00000001999999999999']
+    exps = [b'', b'e0', b'e1', b'E2', b'e-1', b'E-7', b'e-8', b'e-9', b'e-20', b'e5', b'e9', b'e10', b'e12', b'e99999', b'e100000',
+            b'e-99999', b'e', b'e-', b'e+1', b'ee', b'e00007']
+    tails = [b'', b',', b' 1', b'x', b'\x80', b'\xff9', b'\x00' + b'7', b'.', b'-', b'e']
+    for sg in signs:
+        for ip in ints:
+            for fp in fracs:
+                for ex in exps:
+                    k = (len(sg) * 7 + len(ip) * 3 + len(fp) * 5 + len(ex)) % len(tails)     # one tail per combination
+                    out.append(b'coord ' + hx(sg + ip + fp + ex + tails[k]).encode())
+    for extra in [b'', b'-', b'.', b'-.', b'.e1', b'-.5e', b'\x80', b'\xb0', b'\xb9', b'-\xb1', b'1\xb1', b'1.\xb5', b'1e\xb5', b'/', b':', b'1/', b'1:',
+                  b'1.5/', b'1e5:', b'214.7483647', b'214.7483648', b'-214.7483648', b'-214.7483649', b'214.74836475', b'0.000000005e9',
+                  b'1e-0', b'0e99999', b'0.0e99999', b'0.' + b'0' * 19 + b'e99999', b'1e11', b'21474836489e-1', b'21474836490e-1']:
+        out.append(b'coord ' + hx(extra).encode())
+    # ---- integer parsers / small cursor functions of the OPL reader and the timestamp parser
+    nums = [b'', b'0', b'7', b'00', b'0' * 40 + b'7', b'9223372036854775807', b'9223372036854775808', b'9223372036854775809',
+            b'9223372036854775799', b'9223372036854775800', b'922337203685477580', b'922337203685477581', b'9223372036854775810',
+            b'92233720368547758070', b'4294967295', b'4294967296', b'4294967294', b'2147483647', b'2147483648', b'12345', b'99999999999999999999',
+            b'18446744073709551615', b'18446744073709551616']
+    ntails = [b'', b' ', b'\t1', b',', b'x', b'-', b'\xb1', b'\x80', b'\x00' + b'5', b'/', b':']
+    for kind in (b'oplint64', b'oplintu32', b'oplid'):
+        for sg in (b'', b'-', b'+', b'--'):
+            for k, n in enumerate(nums):
+                out.append(kind + b' ' + hx(sg + n + ntails[(k + len(sg)) % len(ntails)]).encode())
+                out.append(kind + b' ' + hx(sg + n).encode())
+        for extra in (b'-', b'- 1', b'\xb0', b'-\xb9', b'1\xb0', b'a', b' 1', b'0x10', b'1e5'):
+            out.append(kind + b' ' + hx(extra).encode())
+    for x in (b'', b'V', b'D', b'Vx', b'v', b'd', b' V', b'\xd6', b'\x00V'):
+        out.append(b'oplvisible ' + hx(x).encode())
+    for x in (b'', b' ', b'\t', b'a', b' a', b'\t \t  x', b'  ', b'\x00 ', b'\xa0', b'\x0b', b'\n', b'x ', b' ' * 50):
+        out.append(b'oplspace ' + hx(x).encode())
+        out.append(b'oplnonempty ' + hx(x).encode())
+    for x in (b'', b'.', b',', b'.5', b',5Z', b'.5Z', b'.123456789Z', b'.123456789', b'.Z', b'.5z', b'.5 Z', b'Z', b'5Z', b'..5Z', b'.5.Z',
+              b'.\xb5Z', b'.5\xdaZ', b'.' + b'9' * 60 + b'Z', b';5Z', b'-5Z', b'.5ZZ', b',0Zx', b'.5\x00Z', b'\xae5Z'):
+        out.append(b'fracsec ' + hx(x).encode())
+    return out
+
+
 def main():
     cxx2lean.regen()
+    inp = os.path.join(vlib.BUILD, 'x2l', 'selftest_cursor.txt')
+    os.makedirs(os.path.dirname(inp), exist_ok=True)
+    with open(inp, 'wb') as f:
+        f.write(b'\n'.join(cursor_inputs()) + b'\n')
     exe, err = vlib.build_cpp('x2lselftest', ['x2l_selftest.cpp'], flags=['-fno-access-control'])
     if exe is None:
         print(err)
         return 2
-    rc, cpp, se = vlib.sh([exe], timeout=120)
+    rc, cpp, se = vlib.sh([exe, inp], timeout=120)
     rc2, so2, se2 = vlib.lake(['build', 'Osmium.Generated.Src'])
     with vlib.Lock('lake', shared=True):
-        rc3, lean, se3 = vlib.sh(['lake', 'env', 'lean', '--run', os.path.join(vlib.ROOT, 'tools', 'x2l_selftest.lean')], cwd=vlib.LEAN, timeout=600)
+        rc3, lean, se3 = vlib.sh(['lake', 'env', 'lean', '--run', os.path.join(vlib.ROOT, 'tools', 'x2l_selftest.lean'), inp], cwd=vlib.LEAN, timeout=1200)
     a, b = cpp.strip().split('\n'), lean.strip().split('\n')
     bad = [(x, y) for x, y in zip(a, b) if x != y]
     if rc or rc2 or rc3 or len(a) != len(b) or bad:
